@@ -18,7 +18,11 @@ for name in sorted(os.listdir(SEEDED)):
         continue
     meta = json.load(open(os.path.join(d, "meta.json")))
     if not only or name in only:
+        # the seed's own property, plus every check that was run against it before (reported it or stayed green)
         checks = [meta["property"]] + EXTRA.get(name, [])
+        for c in list(meta.get("detected_by", {})) + list(meta.get("checks_run_that_stayed_green", [])) + list(meta.get("checks_with_machinery_failure", [])):
+            if c not in checks:
+                checks.append(c)
         r = subprocess.run([os.path.join(VERIF, "tools/seedeval.py"), d, *checks], capture_output=True, text=True)
         res = json.loads(r.stdout[r.stdout.index("{"):])
         meta["confirmed"]["demo_exit_without_change"] = res.get("demo_clean_exit")
